@@ -40,6 +40,9 @@ func PfxBFS(r *Run, roots [][]byte, visit Visit, maxStates int) PfxStats {
 // the recovery exploration).
 var Complete func(w []byte) []byte
 
+// SuffixMenu is appended to every expanded node (see PfxBFSDelta).
+var SuffixMenu = []string{"null", "true", "false", "0", "-1", "1.5e1", `"x"`, "[]", "{}", " null", "\tnull ", "nullx", "ull", "rue", ",null", ":null", "]", "}", "null]", "null}", `"x":null}`}
+
 // classReps has one representative byte per byte class.
 var classReps = func() []byte {
 	seen := map[byte]bool{}
@@ -88,6 +91,13 @@ func PfxBFSDelta(r *Run, roots [][]byte, visit Visit, maxStates int, delta int) 
 		child := make([]byte, len(w)+1)
 		copy(child, w)
 		var comp []byte
+		// every expanded state is also followed by whole tokens from the suffix menu ("what if a
+		// complete, possibly wrong, token follows here"): reaches multi-byte continuations that
+		// byte-at-a-time recovery exploration cannot
+		for _, m := range SuffixMenu {
+			visit(Exact(append(append([]byte(nil), w...), m...)))
+			st.Transitions++
+		}
 		for b := 0; b < 256; b++ {
 			child[len(w)] = byte(b)
 			k, ex := visit(child)
